@@ -307,6 +307,51 @@ def shard_metric(cases):
     return acc
 
 
+def shard_cli(cases):
+    """evo_traj / --project_to_plane together with the steps that replace the
+    trajectory objects before the projection (association with a reference,
+    alignment, merge): the exported trajectories are the projected ones
+    (judged by C15's reference pipeline)"""
+    import os
+    import tempfile
+    from mc.checks import c15
+    acc = Acc()
+    wd = tempfile.mkdtemp(dir=os.getcwd(), prefix="c14cli_")
+    old = os.getcwd()
+    os.chdir(wd)
+    try:
+        c15.write_fixture(wd)
+        for case in cases:
+            msgs, outcome = c15.run_point(case)
+            acc.count("evaluations")
+            acc.count("transitions")
+            acc.count("nontrivial")
+            acc.outcome("evo_traj/" + outcome.split(":")[0])
+            if msgs:
+                acc.violation("cli", "evo_traj %s: %s" % (
+                    " ".join(c15.argv_of(case)[0]), "; ".join(msgs[:2])),
+                    case, {"kind": "cli-projection"})
+    finally:
+        os.chdir(old)
+    return acc
+
+
+def cli_cases():
+    from mc.checks import c15
+    out = []
+    for plane in PLANES:
+        for align in ("none", "sync", "a", "origin"):
+            for merge in (False, True):
+                for nfiles in (1, 2):
+                    out.append({"nfiles": nfiles, "downsample": None,
+                                "motion_filter": None, "merge": merge,
+                                "t_offset": 0.0, "align": align,
+                                "n_to_align": -1,
+                                "transform": c15.TRANSF[0], "project": plane,
+                                "export": "tum", "t_max_diff": 0.01})
+    return out
+
+
 def run(ctx):
     cases = []
     for plane in PLANES:
@@ -341,6 +386,7 @@ def run(ctx):
         {"plane": plane, "ctor": ctor, "tool": tool, "est": est,
          "seed": ctx.seed}] for plane in PLANES for ctor in ("se3", "quat")
         for tool in ("ape", "rpe") for est in ("other", "eq")]))
+    acc.merge(pmap_acc(ctx, __name__, "shard_cli", [cli_cases()]))
     acc.counters["states"] = acc.counters["evaluations"]
     acc.rule = (
         "3 planes x {planar poses: %d headings (1-degree grid over (-180,180] "
@@ -362,4 +408,8 @@ def run(ctx):
 def replay(part, case):
     if part == "metric":
         return run_metric_case(case)
+    if part == "cli":
+        case = dict(case, transform=tuple(case["transform"]))
+        a = shard_cli([case])
+        return [v["msg"] for v in a.violations]
     return [m for m, cls, k in run_case(case)]
